@@ -17,8 +17,111 @@ pub trait ParallelIterator: Sized + Send + Sync {
     fn src_len(&self) -> usize;
     #[doc(hidden)]
     fn produce(&self, i: usize, sink: &mut dyn FnMut(Self::Item));
+    /// false for sources whose order rayon does not preserve (`par_bridge`)
+    #[doc(hidden)]
+    fn ordered(&self) -> bool {
+        true
+    }
 
     // ---- adaptors ----
+    fn fold<T, ID, F>(self, identity: ID, fold_op: F) -> Map<Self, impl Fn(Self::Item) -> T + Sync + Send>
+    where
+        F: Fn(T, Self::Item) -> T + Sync + Send,
+        ID: Fn() -> T + Sync + Send,
+        T: Send,
+    {
+        // rayon does not say how many folds there are; one per item is the finest legal split
+        Map { base: self, f: move |x| fold_op(identity(), x) }
+    }
+    fn map_with<T, F, R>(self, init: T, map_op: F) -> Map<Self, impl Fn(Self::Item) -> R + Sync + Send>
+    where
+        F: Fn(&mut T, Self::Item) -> R + Sync + Send,
+        T: Send + Sync + Clone,
+        R: Send,
+    {
+        Map { base: self, f: move |x| map_op(&mut init.clone(), x) }
+    }
+    fn map_init<T, INIT, F, R>(self, init: INIT, map_op: F) -> Map<Self, impl Fn(Self::Item) -> R + Sync + Send>
+    where
+        F: Fn(&mut T, Self::Item) -> R + Sync + Send,
+        INIT: Fn() -> T + Sync + Send,
+        R: Send,
+    {
+        Map { base: self, f: move |x| map_op(&mut init(), x) }
+    }
+    fn update<F>(self, f: F) -> Map<Self, impl Fn(Self::Item) -> Self::Item + Sync + Send>
+    where
+        F: Fn(&mut Self::Item) + Sync + Send,
+    {
+        Map {
+            base: self,
+            f: move |mut x| {
+                f(&mut x);
+                x
+            },
+        }
+    }
+    fn panic_fuse(self) -> Self {
+        self
+    }
+    fn for_each_with<T, F>(self, init: T, op: F)
+    where
+        F: Fn(&mut T, Self::Item) + Sync + Send,
+        T: Send + Sync + Clone,
+    {
+        self.for_each(move |x| op(&mut init.clone(), x))
+    }
+    fn for_each_init<T, INIT, F>(self, init: INIT, op: F)
+    where
+        F: Fn(&mut T, Self::Item) + Sync + Send,
+        INIT: Fn() -> T + Sync + Send,
+    {
+        self.for_each(move |x| op(&mut init(), x))
+    }
+    fn try_for_each<F, E>(self, f: F) -> Result<(), E>
+    where
+        F: Fn(Self::Item) -> Result<(), E> + Sync + Send,
+        E: Send,
+    {
+        let m = FilterMap { base: self, f: move |x| f(x).err() };
+        match pick_any(drive(&m, Short::Any)) {
+            Some(e) => Err(e),
+            None => Ok(()),
+        }
+    }
+    fn partition<A, B, P>(self, predicate: P) -> (A, B)
+    where
+        A: Default + Extend<Self::Item>,
+        B: Default + Extend<Self::Item>,
+        P: Fn(&Self::Item) -> bool + Sync + Send,
+    {
+        let mut a = A::default();
+        let mut b = B::default();
+        for x in collect_vec(&self) {
+            if predicate(&x) {
+                a.extend(std::iter::once(x));
+            } else {
+                b.extend(std::iter::once(x));
+            }
+        }
+        (a, b)
+    }
+    fn unzip<A, B, FromA, FromB>(self) -> (FromA, FromB)
+    where
+        Self: ParallelIterator<Item = (A, B)>,
+        FromA: Default + Extend<A>,
+        FromB: Default + Extend<B>,
+        A: Send,
+        B: Send,
+    {
+        let mut fa = FromA::default();
+        let mut fb = FromB::default();
+        for (x, y) in collect_vec(&self) {
+            fa.extend(std::iter::once(x));
+            fb.extend(std::iter::once(y));
+        }
+        (fa, fb)
+    }
     fn map<F, R>(self, f: F) -> Map<Self, F>
     where
         F: Fn(Self::Item) -> R + Sync + Send,
@@ -265,7 +368,7 @@ impl<T: Send, C: FromIterator<T>> FromParallelIterator<T> for C {
         I: IntoParallelIterator<Item = T>,
     {
         let p = par_iter.into_par_iter();
-        in_order(drive(&p, Short::No)).into_iter().collect()
+        collect_vec(&p).into_iter().collect()
     }
 }
 
@@ -485,6 +588,9 @@ where
     fn src_len(&self) -> usize {
         self.base.src_len()
     }
+    fn ordered(&self) -> bool {
+        self.base.ordered()
+    }
     fn produce(&self, i: usize, sink: &mut dyn FnMut(R)) {
         self.base.produce(i, &mut |t| sink((self.f)(t)))
     }
@@ -511,6 +617,9 @@ where
     fn src_len(&self) -> usize {
         self.base.src_len()
     }
+    fn ordered(&self) -> bool {
+        self.base.ordered()
+    }
     fn produce(&self, i: usize, sink: &mut dyn FnMut(I::Item)) {
         self.base.produce(i, &mut |t| {
             if (self.p)(&t) {
@@ -534,6 +643,9 @@ where
     type Item = R;
     fn src_len(&self) -> usize {
         self.base.src_len()
+    }
+    fn ordered(&self) -> bool {
+        self.base.ordered()
     }
     fn produce(&self, i: usize, sink: &mut dyn FnMut(R)) {
         self.base.produce(i, &mut |t| {
@@ -560,6 +672,9 @@ where
     fn src_len(&self) -> usize {
         self.base.src_len()
     }
+    fn ordered(&self) -> bool {
+        self.base.ordered()
+    }
     fn produce(&self, i: usize, sink: &mut dyn FnMut(U::Item)) {
         self.base.produce(i, &mut |t| {
             for u in (self.f)(t) {
@@ -584,6 +699,9 @@ where
     fn src_len(&self) -> usize {
         self.base.src_len()
     }
+    fn ordered(&self) -> bool {
+        self.base.ordered()
+    }
     fn produce(&self, i: usize, sink: &mut dyn FnMut(PI::Item)) {
         self.base.produce(i, &mut |t| {
             let inner = (self.f)(t).into_par_iter();
@@ -607,6 +725,9 @@ where
     type Item = I::Item;
     fn src_len(&self) -> usize {
         self.base.src_len()
+    }
+    fn ordered(&self) -> bool {
+        self.base.ordered()
     }
     fn produce(&self, i: usize, sink: &mut dyn FnMut(I::Item)) {
         self.base.produce(i, &mut |t| {
@@ -635,6 +756,9 @@ where
     fn src_len(&self) -> usize {
         self.base.src_len()
     }
+    fn ordered(&self) -> bool {
+        self.base.ordered()
+    }
     fn produce(&self, i: usize, sink: &mut dyn FnMut(T)) {
         self.base.produce(i, &mut |t| sink(t.clone()))
     }
@@ -659,6 +783,9 @@ where
     fn src_len(&self) -> usize {
         self.base.src_len()
     }
+    fn ordered(&self) -> bool {
+        self.base.ordered()
+    }
     fn produce(&self, i: usize, sink: &mut dyn FnMut(T)) {
         self.base.produce(i, &mut |t| sink(*t))
     }
@@ -678,6 +805,9 @@ impl<I: IndexedParallelIterator> ParallelIterator for Enumerate<I> {
     type Item = (usize, I::Item);
     fn src_len(&self) -> usize {
         self.base.src_len()
+    }
+    fn ordered(&self) -> bool {
+        self.base.ordered()
     }
     fn produce(&self, i: usize, sink: &mut dyn FnMut((usize, I::Item))) {
         self.base.produce(i, &mut |t| sink((i, t)))
@@ -761,6 +891,16 @@ pub(crate) enum Short {
     Any,
     /// items to the right of the leftmost producing item may be skipped
     First,
+}
+
+/// All outputs: in source order for ordered pipelines, in completion order otherwise.
+pub(crate) fn collect_vec<P: ParallelIterator>(p: &P) -> Vec<P::Item> {
+    let res = drive(p, Short::No);
+    if p.ordered() {
+        in_order(res)
+    } else {
+        res.into_iter().flat_map(|(_, o)| o).collect()
+    }
 }
 
 /// Flatten per-item outputs in source order.
@@ -985,5 +1125,42 @@ fn take_item(q: &mut Queue, take: TakePolicy, w: usize) -> Option<usize> {
                 None
             }
         }
+    }
+}
+
+// ---------------------------------------------------------------------------------------------
+// par_bridge: a sequential iterator consumed by the pool; rayon does NOT preserve its order
+// ---------------------------------------------------------------------------------------------
+
+#[derive(Debug)]
+pub struct IterBridge<T: Send> {
+    items: Vec<StdMutex<Option<T>>>,
+}
+impl<T: Send> ParallelIterator for IterBridge<T> {
+    type Item = T;
+    fn src_len(&self) -> usize {
+        self.items.len()
+    }
+    fn produce(&self, i: usize, sink: &mut dyn FnMut(T)) {
+        if let Some(t) = self.items[i].lock().unwrap().take() {
+            sink(t)
+        }
+    }
+    fn ordered(&self) -> bool {
+        false
+    }
+}
+
+pub trait ParallelBridge: Sized {
+    type Item: Send;
+    fn par_bridge(self) -> IterBridge<Self::Item>;
+}
+impl<T: Iterator + Send> ParallelBridge for T
+where
+    T::Item: Send,
+{
+    type Item = T::Item;
+    fn par_bridge(self) -> IterBridge<T::Item> {
+        IterBridge { items: self.map(|t| StdMutex::new(Some(t))).collect() }
     }
 }
